@@ -306,6 +306,12 @@ def _api_script(draw, gen: int):
             ops.append(["advance", 2.0])
         what = draw(st.sampled_from(["toggle", "toggle", "power", "update", "damper", "nothing"]))
         ac = draw(st.sampled_from(ac_ids))
+        if draw(st.integers(0, 3)) == 0:
+            # the console reports a new error code: the client answers with an internally generated error-information
+            # request (a refresh request), optionally into a failing write, optionally with the reconnection refused
+            ops.append(["push_error", draw(st.sampled_from(ac_ids)), draw(st.integers(1, 0xFFFE)), draw(st.integers(0, 3)),
+                        draw(st.integers(0, 2))])
+            ops.append(["advance", draw(st.sampled_from([0.0, 0.125, 2.0, 4.0]))])
         if what == "toggle" and ("t", ac) not in used:
             used.add(("t", ac))
             ops.append(["cmd", "toggle", ac])
@@ -347,6 +353,7 @@ def run_api(case, stats: Stats | None):
         n_conn0 = len(rig.net.conns)
         armed_for = None
         single_fault_cmd = None
+        pushed_error = False
         for op in case["ops"]:
             loop, net = rig.loop, rig.net
             name = op[0]
@@ -365,6 +372,17 @@ def run_api(case, stats: Stats | None):
                     net.current.peer_reset()
             elif name == "arm":
                 net.arm_on_accept.extend(op[1])
+            elif name == "push_error":
+                cur = net.current
+                if cur is not None and cur.alive and rig.sock.is_connected:
+                    st_ac = rig.console.state["acs"][str(op[1])]
+                    st_ac["error_code"] = op[2] if st_ac["error_code"] != op[2] else (op[2] % 0xFFFE) + 1
+                    for _ in range(op[4]):
+                        net.script.append(("refuse", 0.0))
+                    if op[3]:
+                        cur.fail_write(op[3])
+                    rig.console.feed(cur, rig.console.w.ac_status(list(rig.console.state["acs"].values())), label="push:error")
+                    pushed_error = True
             elif name == "advance":
                 loop.advance(op[1])
             elif name == "advance_rel":
@@ -440,6 +458,8 @@ def run_api(case, stats: Stats | None):
                 lim, L = 3, 30.0
             elif kind.endswith("_req"):
                 lim, L = (1, 1.0) if not (kind == "version_req" and any(m["cls"] == "update" for m in cmds)) else (3, 30.0)
+                if kind == "error_req" and pushed_error:
+                    classes.append("error-request-on-wire")
                 if lim == 1 and len(ss) > 1:
                     bad("connected-only-retried", f"a {kind} (handshake / heartbeat / refresh / poll request) was put on the wire "
                                                   f"{len(ss)} times at {ss}")
@@ -497,7 +517,8 @@ def shards(tier: str):
 
 def floors(tier: str):
     return {"fault-hit-tracked": 100, "accepted-while-down": 100, "resent-first": 30, "open-at-deadline": 5,
-            "open-just-before-deadline": 5, "open-just-after-deadline": 5, "toggle-on-wire": 50, "retried": 30}
+            "open-just-before-deadline": 5, "open-just-after-deadline": 5, "toggle-on-wire": 50, "retried": 30,
+            "error-request-on-wire": 30}
 
 
 def run_shard(spec, seed: int, tier: str):
